@@ -250,7 +250,11 @@ def execute(aiu, events, cfg, script=None, *, form='class', tie=1, tail=None, fr
             obs.loop_task_dead = lt._loop_task.done()
         return True
 
-    run = run_main(main, tie=tie, after_main=lambda r: holder.__setitem__('over', True))
+    from mc.vloop import SoloWorld
+    world0 = SoloWorld(tie=tie)
+    world0.deadlines = []
+    run = run_main(main, tie=tie, world=world0, after_main=lambda r: holder.__setitem__('over', True))
+    obs.deadlines = sorted(set(world0.deadlines))
     obs.loop_exc = list(run.world.exc_log)
     return obs, run
 
@@ -265,3 +269,34 @@ def describe(obs):
                (c['out'][0], repr(c['out'][1]) if c['out'] and len(c['out']) > 1 else None) if c['out'] else None)
               for c in obs.calls),
     )
+
+
+def adaptive_programs(aiu, cfg, script, depth, keys=(0,), form='class', max_branch=16, check=None):
+    """DFS over same-key (or few-key) call programs whose arrival instants are NOT taken from a fixed grid
+    but placed just before / just after every timer deadline that was armed - by the implementation or by the
+    harness batch function - while the prefix ran to quiescence. Yields (events, obs, run)."""
+    def to_gaps(abs_events):
+        out, t = [], 0.0
+        for at, op in abs_events:
+            out.append((at - t, op))
+            t = at
+        return out
+
+    def rec(abs_events):
+        ev = to_gaps(abs_events)
+        obs, run = execute(aiu, ev, cfg, script, form=form)
+        yield ev, obs, run
+        if len(abs_events) >= depth or run.hang:
+            return
+        t_last = abs_events[-1][0]
+        cands = {t_last}
+        for d in obs.deadlines:
+            if d > t_last - 1e-9:
+                for t in (d - EPS, d + EPS):
+                    if t >= t_last:
+                        cands.add(t)
+        for t in sorted(cands)[:max_branch]:
+            for k in keys:
+                yield from rec(abs_events + [(t, ('call', k))])
+    for k0 in keys[:1]:
+        yield from rec([(0.0, ('call', k0))])
